@@ -378,6 +378,9 @@ func (w *c15World) buildEntry(rt *rapid.T, kind string, v c15Val, height int64, 
 		vote.BlockIdFlag = cmtproto.BlockIDFlagNil
 	case "no-signature":
 		vote.ExtensionSignature = nil
+	case "long-address":
+		// the validator's address followed by one more byte: not the address of any recorded L1 validator
+		vote.Validator.Address = append(append([]byte{}, vote.Validator.Address...), byte(1+len(ext)%200))
 	case "long-signature":
 		// a signature with one byte too many (an honest signature followed by a zero)
 		vote.ExtensionSignature = append(append([]byte{}, vote.ExtensionSignature...), 0)
@@ -475,7 +478,7 @@ func (w *c15World) safety(before, after map[string]c15Price, r henv.Result, send
 }
 
 var c15Kinds = []weighted{{"honest", 30}, {"subset", 3}, {"missing", 3}, {"duplicate", 2}, {"dup-forged", 2}, {"odd-flag-forged", 2}, {"other-key", 1}, {"wrong-chain", 1}, {"height+1", 1}, {"height-1", 1}, {"round+1", 1},
-	{"altered", 1}, {"unknown-validator", 2}, {"nil-vote", 2}, {"absent", 2}, {"nil-with-payload", 1}, {"no-signature", 1}, {"long-signature", 2}, {"short-signature", 1}, {"oversized", 1}, {"unknown-pair", 1}, {"no-timestamp", 1}}
+	{"altered", 1}, {"unknown-validator", 2}, {"nil-vote", 2}, {"absent", 2}, {"nil-with-payload", 1}, {"no-signature", 1}, {"long-signature", 2}, {"short-signature", 1}, {"long-address", 2}, {"oversized", 1}, {"unknown-pair", 1}, {"no-timestamp", 1}}
 
 func TestC15Rapid(t *testing.T) {
 	rec := evid.For("C15")
